@@ -1,13 +1,21 @@
 import I18nVerif.Model.Context
 /-!
 Specification of C16, as a function of the **history** of operations (most recent first) — no cells, no
-mutation.  It shares with the model only the vocabulary (`Op`, `Obs`) and the naming convention (contexts, views
-and closures are numbered in creation order).
+mutation, no owner chain to walk.  It shares with the model only the vocabulary (`Op`, `Obs`) and the naming
+convention (contexts, views, closures, memos and owners are numbered in creation order).
 
-`current h c` = the locale context `c` shows after history `h` =
-"the locale of the most recent `set_locale` / `set_locale_untracked` on *any* view of `c`, else the locale `c`
-was created with".  An operation naming a view or closure that does not exist is rejected (`Obs.bad`) and
-leaves no trace in the history.
+* `current h c` = the locale context `c` shows after history `h` =
+  "the locale of the most recent `set_locale` / `set_locale_untracked` on *any* view of `c`, else the locale `c`
+  was created with";
+* reactive accessors: a memo returns "the value of the cell at the memo's last (re)evaluation, where a read
+  re-evaluates iff the memo was never read or a tracked `set_locale` on its context happened since"
+  (`memoStale`, `memoCache`, `memoRead`);
+* providers: "a sub-context is visible exactly in the subtree of its provider's children" — what `use_i18n()`
+  finds in an owner is fixed when the owner is created: the context provided there, else what its parent owner
+  sees (`visible`); no later operation changes it.
+
+An operation naming a view / closure / memo / owner that does not exist is rejected (`Obs.bad`) and leaves no
+trace in the history.
 -/
 namespace I18nVerif.Context.Spec
 open I18nVerif.Context
@@ -20,14 +28,46 @@ def nCtx : Hist → Nat
   | [] => 0
   | .newRoot _ :: h => nCtx h + 1
   | .sub _ _ _ :: h => nCtx h + 1
+  | .provideRoot _ :: h => nCtx h + 1
+  | .provider _ _ _ :: h => nCtx h + 1
   | _ :: h => nCtx h
+
+/-- number of owners created so far -/
+def nOwners : Hist → Nat
+  | [] => 0
+  | .provideRoot _ :: h => nOwners h + 1
+  | .childOwner _ :: h => nOwners h + 1
+  | .provider _ _ _ :: h => nOwners h + 1
+  | _ :: h => nOwners h
+
+/-- the context `use_i18n()` finds in owner `o` — decided when `o` is created -/
+def visible : Hist → Nat → Option Nat
+  | [], _ => none
+  | .provideRoot _ :: h, o => if o = nOwners h then some (nCtx h) else visible h o
+  | .childOwner p :: h, o => if o = nOwners h then visible h p else visible h o
+  | .provider _ _ _ :: h, o => if o = nOwners h then some (nCtx h) else visible h o
+  | .newRoot _ :: h, o => visible h o
+  | .sub _ _ _ :: h, o => visible h o
+  | .scope _ :: h, o => visible h o
+  | .set _ _ :: h, o => visible h o
+  | .setUntracked _ _ :: h, o => visible h o
+  | .get _ :: h, o => visible h o
+  | .getUntracked _ :: h, o => visible h o
+  | .makeClosure _ :: h, o => visible h o
+  | .callClosure _ :: h, o => visible h o
+  | .makeMemo _ :: h, o => visible h o
+  | .readMemo _ :: h, o => visible h o
+  | .useCtx _ :: h, o => visible h o
 
 /-- which context each view is a view of -/
 def views : Hist → List Nat
   | [] => []
   | .newRoot _ :: h => views h ++ [nCtx h]
   | .sub _ _ _ :: h => views h ++ [nCtx h]
+  | .provideRoot _ :: h => views h ++ [nCtx h]
+  | .provider _ _ _ :: h => views h ++ [nCtx h]
   | .scope v :: h => views h ++ ((views h)[v]?).toList
+  | .useCtx o :: h => views h ++ (visible h o).toList
   | _ :: h => views h
 
 /-- which view each closure captured -/
@@ -36,12 +76,19 @@ def closures : Hist → List Nat
   | .makeClosure v :: h => closures h ++ [v]
   | _ :: h => closures h
 
+/-- which view each memo is derived from -/
+def memoViews : Hist → List Nat
+  | [] => []
+  | .makeMemo v :: h => memoViews h ++ [v]
+  | _ :: h => memoViews h
+
 /-- the locale shown by context `c` after `h` -/
 def current : Hist → Nat → Option Locale
   | [], _ => none
   | .set v l :: h, c => if (views h)[v]? = some c then some l else current h c
   | .setUntracked v l :: h, c => if (views h)[v]? = some c then some l else current h c
   | .newRoot init :: h, c => if c = nCtx h then some init else current h c
+  | .provideRoot init :: h, c => if c = nCtx h then some init else current h c
   | .sub parent initial fallback :: h, c =>
     if c = nCtx h then
       -- explicit initial locale, else the parent's locale at creation time, else the normal resolution
@@ -50,17 +97,82 @@ def current : Hist → Nat → Option Locale
       | none, some pv => (match (views h)[pv]? with | some pc => current h pc | none => none)
       | none, none => some fallback
     else current h c
+  | .provider o initial fallback :: h, c =>
+    if c = nCtx h then
+      -- explicit initial locale, else the locale of the context visible where the provider is rendered, else the resolution
+      match initial, visible h o with
+      | some i, _ => some i
+      | none, some pc => some ((current h pc).getD fallback)
+      | none, none => some fallback
+    else current h c
   | .scope _ :: h, c => current h c
   | .get _ :: h, c => current h c
   | .getUntracked _ :: h, c => current h c
   | .makeClosure _ :: h, c => current h c
   | .callClosure _ :: h, c => current h c
+  | .makeMemo _ :: h, c => current h c
+  | .readMemo _ :: h, c => current h c
+  | .childOwner _ :: h, c => current h c
+  | .useCtx _ :: h, c => current h c
 
 /-- the locale a view shows: that of its context -/
 def viewLocale (h : Hist) (v : Nat) : Option Locale :=
   match (views h)[v]? with
   | some c => current h c
   | none => none
+
+/-- the context a memo depends on -/
+def memoCtx (h : Hist) (i : Nat) : Option Nat :=
+  match (memoViews h)[i]? with
+  | some v => (views h)[v]?
+  | none => none
+
+/-- must memo `i` be (re)evaluated at its next read?  Yes iff it was never read, or a *tracked* `set_locale` on a
+    view of its context happened since its last read. -/
+def memoStale : Hist → Nat → Bool
+  | [], _ => true
+  | .makeMemo _ :: h, i => if i = (memoViews h).length then true else memoStale h i
+  | .set v _ :: h, i => if memoCtx h i = (views h)[v]? then true else memoStale h i
+  | .readMemo j :: h, i => if j = i then false else memoStale h i
+  | .setUntracked _ _ :: h, i => memoStale h i
+  | .newRoot _ :: h, i => memoStale h i
+  | .sub _ _ _ :: h, i => memoStale h i
+  | .scope _ :: h, i => memoStale h i
+  | .get _ :: h, i => memoStale h i
+  | .getUntracked _ :: h, i => memoStale h i
+  | .makeClosure _ :: h, i => memoStale h i
+  | .callClosure _ :: h, i => memoStale h i
+  | .provideRoot _ :: h, i => memoStale h i
+  | .childOwner _ :: h, i => memoStale h i
+  | .provider _ _ _ :: h, i => memoStale h i
+  | .useCtx _ :: h, i => memoStale h i
+
+/-- the value memo `i` computed at its last evaluation -/
+def memoCache : Hist → Nat → Option Locale
+  | [], _ => none
+  | .makeMemo _ :: h, i => if i = (memoViews h).length then none else memoCache h i
+  | .readMemo j :: h, i =>
+    if j = i ∧ memoStale h i = true then (match memoCtx h i with | some c => current h c | none => none)
+    else memoCache h i
+  | .set _ _ :: h, i => memoCache h i
+  | .setUntracked _ _ :: h, i => memoCache h i
+  | .newRoot _ :: h, i => memoCache h i
+  | .sub _ _ _ :: h, i => memoCache h i
+  | .scope _ :: h, i => memoCache h i
+  | .get _ :: h, i => memoCache h i
+  | .getUntracked _ :: h, i => memoCache h i
+  | .makeClosure _ :: h, i => memoCache h i
+  | .callClosure _ :: h, i => memoCache h i
+  | .provideRoot _ :: h, i => memoCache h i
+  | .childOwner _ :: h, i => memoCache h i
+  | .provider _ _ _ :: h, i => memoCache h i
+  | .useCtx _ :: h, i => memoCache h i
+
+/-- what reading memo `i` returns now -/
+def memoRead (h : Hist) (i : Nat) : Option Locale :=
+  match (memoViews h)[i]? with
+  | none => none
+  | some v => if memoStale h i then viewLocale h v else memoCache h i
 
 /-- what the operation must observe after history `h` -/
 def obsAt (h : Hist) : Op → Obs
@@ -77,6 +189,17 @@ def obsAt (h : Hist) : Op → Obs
     match (closures h)[i]? with
     | some v => match viewLocale h v with | some l => .locale l | none => .bad
     | none => .bad
+  | .makeMemo v => if v < (views h).length then .memo (memoViews h).length else .bad
+  | .readMemo i => match memoRead h i with | some l => .locale l | none => .bad
+  | .provideRoot _ => .provided (views h).length (nOwners h) (nCtx h)
+  | .childOwner o => if o < nOwners h then .owner (nOwners h) else .bad
+  | .provider o _ _ => if o < nOwners h then .provided (views h).length (nOwners h) (nCtx h) else .bad
+  | .useCtx o =>
+    if o < nOwners h then
+      match visible h o with
+      | some c => .found (views h).length c
+      | none => .notFound
+    else .bad
 
 /-- expected observations of a whole sequence, starting after history `h` -/
 def observe (h : Hist) : List Op → List Obs
@@ -84,6 +207,11 @@ def observe (h : Hist) : List Op → List Obs
   | op :: ops =>
     let o := obsAt h op
     o :: observe (if o = .bad then h else op :: h) ops
+
+/-- the history (accepted operations, most recent first) after running `ops` from history `h` -/
+def history (h : Hist) : List Op → Hist
+  | [] => h
+  | op :: ops => history (if obsAt h op = .bad then h else op :: h) ops
 
 /-- the expected observations of an operation sequence run from scratch -/
 def observations (ops : List Op) : List Obs := observe [] ops
